@@ -958,6 +958,11 @@ var menu = map[string][]menuEntry{
 		ent("VAT", "exempt", "", "").with("", map[string]string{"es-tbai-exemption": "E2"}),
 		ent("VAT", "", "21.0%", "").with("", map[string]string{"es-tbai-product": "services"}),
 		ent("VAT", "", "21.0%", "5.2%").with("", map[string]string{"es-tbai-product": "services"}),
+		// nested extension sets at one percentage: a set and a superset of it are different groups
+		ent("VAT", "", "21.0%", "").with("", map[string]string{"es-tbai-product": "services", "es-tbai-exemption": "E1"}),
+		ent("VAT", "", "21.0%", "").with("", map[string]string{"es-tbai-product": "goods"}),
+		ent("VAT", "exempt", "", "").with("", map[string]string{"es-tbai-exemption": "E1", "es-tbai-product": "services"}),
+		ent("VAT", "", "21.0%", "5.2%").with("", map[string]string{"es-tbai-product": "services", "es-tbai-exemption": "E2"}),
 		ent("VAT", "", "23.0%", "").with("PT", nil),
 		ent("VAT", "", "21.0%", "").with("PT", nil),
 		ent("VAT", "", "20.0%", "").with("FR", nil),
